@@ -81,7 +81,7 @@ func (g *Gen) badRef(t *rapid.T) Ref {
 		return DeadRef(pick(t, dead, "dead"))
 	case k < 8:
 		n := pick(t, live, "forge")
-		return ForgedRef(n, pick(t, []uint64{1, ^uint64(0), 2, 1 << 32}, "delta"))
+		return g.X.SafeForged(n, pick(t, []uint64{1, ^uint64(0), 2, 1 << 32}, "delta"))
 	default:
 		n := pick(t, []int{0, 1, 7, 8, 15, 16, 17, 32, 64}, "fhlen")
 		b := rapid.SliceOfN(rapid.Byte(), n, n).Draw(t, "fhbytes")
